@@ -17,6 +17,9 @@ P = {
  "C08": dict(level="proof", tech="interval abstract interpretation of Step in 12288 opcode x M,X,E x interrupt cells per package; bus-access events carry address and dispatch-index intervals; liveness of panic/fatal/index-range sites",
    text="Sound interval analysis of every bus access of every Step cell (all other state symbolic) in both interpreters proves address < 2^24 and dispatch index < 2^20, and that no panic, log.Fatal or possibly-out-of-range array index is live when the whole bus is mapped; the cells cover all opcodes and all register/memory valuations, nothing is sampled.",
    note="Trusted: go/ssa, absint interval transfer functions; assumes flag bytes hold 0/1 (obligation C01/flags01), memory back ends and user callbacks are outside the boundary, whole bus mapped (nil-backend arms pruned).", ref="4 C08"),
+ "C01": dict(level="other", tech="table arithmetic against an independent opcode matrix + abstract interpretation of Step per opcode x M,X,E x interrupt cell: decoded length, live unknown-mode arms, dependence of outputs on stale register copies, unchanged-field / PC / SP / memory-write effect signatures, flag ranges",
+   text="Structural necessary conditions only: decode table and decoded length per (opcode,M,X), one routine per mnemonic, no unknown-mode arm live, no flow from the non-authoritative copy of A/X/Y, per-mnemonic may-change sets with exact PC/SP deltas in native mode, flags stay 0/1 - each decided for all register/memory valuations of its cell in both packages. The numerical semantics of the 256 opcodes (ALU results, flag values, in-bank address arithmetic, pushed bytes) are not decided by any static argument in reach and are not claimed.",
+   note="Oracles: ref/isa65816.json, ref/isa_effects.json (authored from the WDC data sheet). Trusted: go/ssa, absint. Values computed by the routines are outside the claim (DESIGN.md section 7).", ref="4 C01"),
 }
 reasons_pending = "no check is registered for this property at this commit (machinery not built yet); see DESIGN.md section 4 for the planned static rules"
 
